@@ -376,7 +376,7 @@ class C06(Check):
         specs.append(("designed/valve-user-open", K.valve_user_open_spec()))
         specs.append(("designed/pump-reverse", K.pump_reverse_spec()))
         specs.append(("designed/head-tie", K.head_tie_spec()))
-        n = 14 if ctx.quick else 80
+        n = 14 if ctx.quick else 220
         for i in range(n):
             force = {}
             if i % 4 == 1:
@@ -392,10 +392,17 @@ class C06(Check):
                             "rows": [(r["t"], round(r["tanks"][tn][0] - tr.tanks[tn]["elev"], 6), r["tanks"][tn][1]) for r in tr.rows[:6]]})
         B.finish()
         ctx.cov["driver_requests"] = len(B.lines)
+        known = {k.get("key") for k in vlib.load_known_findings()["findings"] if k.get("property") == "C06"}
+        if broken and not [f for f in failures if f.key not in known]:
+            # vlib only searches when no failure at all was found; known findings must not suppress the search
+            failures += self.search(ctx, broken)
         return failures, broken
 
     def search(self, ctx, broken):
         """wider run of the oracles on the real implementation (correspondence already ran them on the standard stream)"""
+        if getattr(self, "_searched", False):
+            return []
+        self._searched = True
         failures, br2 = [], []
         B = K.Batch()
         for i in range(30 if ctx.quick else 120):
